@@ -18,8 +18,8 @@ def SimSt (p o : PState) : Prop :=
   p.ctx.underline = o.ctx.underline ∧ p.ctx.bg = o.ctx.bg ∧
   (match o.mode with
     | .plain => FgRel p.ctx o.ctx
-    | .fg _ _ => True
-    | .bg _ _ => p.ctx.fg = o.ctx.fg)
+    | .fg _ _ _ => True
+    | .bg _ _ _ => p.ctx.fg = o.ctx.fg)
 
 theorem simSt_refl (o : PState) : SimSt o o := by
   refine ⟨rfl, rfl, rfl, rfl, rfl, ?_⟩
@@ -66,11 +66,11 @@ theorem finish_sim {p o : PState} (h : SimSt p o) : SimSt (finish p) (finish o) 
   | plain =>
     rw [hm] at h5
     exact ⟨⟨by rw [h0, hm], h1, h2, h3, h4, by rw [hm]; exact h5⟩, hm⟩
-  | fg i set =>
+  | fg i set n =>
     refine ⟨⟨rfl, h1, h2, h3, h4, ?_⟩, rfl⟩
     simp only [bump_mode, setFg]
     exact Or.inl rfl
-  | bg i set =>
+  | bg i set n =>
     rw [hm] at h5
     simp only at h5
     refine ⟨⟨rfl, h1, h2, h3, rfl, ?_⟩, rfl⟩
@@ -81,79 +81,52 @@ theorem finish_mode (st : PState) : (finish st).mode = .plain := by
   unfold finish
   cases hm : st.mode <;> simp [setFg, setBg, hm]
 
+theorem continues_digit {i n : Nat} {c : Char} (h : continues i n c = true) : isDigit c = true := by
+  simp only [continues, Bool.and_eq_true] at h; exact h.1.1
+
 /-- a character that cannot continue a colour code closes any pending colour, then acts as in plain mode -/
 theorem step_clean (st : PState) {x : Char} (hx : contChar x = false) : step st x = plainStep (finish st) x := by
   simp only [contChar, Bool.or_eq_false_iff, decide_eq_false_iff_not] at hx
   obtain ⟨hd, hcomma⟩ := hx
   unfold step finish
-  cases hm : st.mode <;> simp [hd, hcomma]
+  cases hm : st.mode <;> simp [continues, hd, hcomma]
 
 theorem step_sim {p o : PState} (h : SimSt p o) (x : Char) : SimSt (step p x) (step o x) := by
-  by_cases hx : contChar x = false
-  · rw [step_clean p hx, step_clean o hx]
-    exact plainStep_sim (finish_sim h).1 (finish_sim h).2 x
-  · obtain ⟨h0, h1, h2, h3, h4, h5⟩ := h
-    have hx : isDigit x = true ∨ x = ',' := by
-      simp only [contChar, Bool.or_eq_false_iff, decide_eq_false_iff_not] at hx
-      by_cases hd : isDigit x = true
-      · exact Or.inl hd
-      · by_cases hc : x = ','
-        · exact Or.inr hc
-        · exact absurd ⟨by simpa using hd, hc⟩ hx
-    cases hm : o.mode with
-    | plain =>
-      have hpm : p.mode = .plain := by rw [h0, hm]
-      have : SimSt p o := ⟨h0, h1, h2, h3, h4, h5⟩
-      have hs := plainStep_sim this hm x
-      unfold step
-      rw [hpm, hm]
-      exact hs
-    | fg i set =>
-      have hpm : p.mode = .fg i set := by rw [h0, hm]
-      unfold step
-      rw [hpm, hm]
-      simp only
-      by_cases hd : isDigit x = true
-      · simp only [hd, ↓reduceIte]
-        split
-        · -- overflow: the colour is committed, the digit is plain text
-          have hf : SimSt (finish p) (finish o) := (finish_sim ⟨h0, h1, h2, h3, h4, h5⟩).1
-          have hfm := finish_mode o
-          have := plainStep_sim hf hfm x
-          unfold finish at this
-          rw [hpm, hm] at this
-          exact this
-        · exact ⟨rfl, h1, h2, h3, h4, trivial⟩
-      · have hc : x = ',' := by
-          rcases hx with hx | hx
-          · exact absurd hx hd
-          · exact hx
-        simp only [↓reduceIte, hc]
-        exact ⟨rfl, h1, h2, h3, h4, rfl⟩
-    | bg i set =>
-      have hpm : p.mode = .bg i set := by rw [h0, hm]
-      rw [hm] at h5
-      simp only at h5
-      unfold step
-      rw [hpm, hm]
-      simp only
-      by_cases hd : isDigit x = true
-      · simp only [hd, ↓reduceIte]
-        split
-        · have hf : SimSt (finish p) (finish o) := (finish_sim ⟨h0, h1, h2, h3, h4, by rw [hm]; exact h5⟩).1
-          have hfm := finish_mode o
-          have := plainStep_sim hf hfm x
-          unfold finish at this
-          rw [hpm, hm] at this
-          exact this
-        · exact ⟨rfl, h1, h2, h3, h4, h5⟩
-      · simp only [hd, Bool.false_eq_true, ↓reduceIte]
-        have hf : SimSt (finish p) (finish o) := (finish_sim ⟨h0, h1, h2, h3, h4, by rw [hm]; exact h5⟩).1
-        have hfm := finish_mode o
-        have := plainStep_sim hf hfm x
-        unfold finish at this
-        rw [hpm, hm] at this
-        exact this
+  obtain ⟨h0, h1, h2, h3, h4, h5⟩ := h
+  have hfin := finish_sim ⟨h0, h1, h2, h3, h4, h5⟩
+  cases hm : o.mode with
+  | plain =>
+    have hpm : p.mode = .plain := by rw [h0, hm]
+    have hs := plainStep_sim ⟨h0, h1, h2, h3, h4, h5⟩ hm x
+    unfold step
+    rw [hpm, hm]
+    exact hs
+  | fg i set n =>
+    have hpm : p.mode = .fg i set n := by rw [h0, hm]
+    have hplain := plainStep_sim hfin.1 hfin.2 x
+    unfold finish at hplain
+    rw [hpm, hm] at hplain
+    unfold step
+    rw [hpm, hm]
+    simp only
+    split
+    · exact ⟨rfl, h1, h2, h3, h4, trivial⟩
+    · split
+      · exact ⟨rfl, h1, h2, h3, h4, rfl⟩
+      · exact hplain
+  | bg i set n =>
+    have hpm : p.mode = .bg i set n := by rw [h0, hm]
+    have hplain := plainStep_sim hfin.1 hfin.2 x
+    unfold finish at hplain
+    rw [hpm, hm] at hplain
+    rw [hm] at h5
+    simp only at h5
+    unfold step
+    rw [hpm, hm]
+    simp only
+    split
+    · exact ⟨rfl, h1, h2, h3, h4, h5⟩
+    · exact hplain
 
 theorem foldl_step_sim (s : Str) : ∀ {p o : PState}, SimSt p o → SimSt (s.foldl step p) (s.foldl step o) := by
   induction s with
@@ -167,8 +140,8 @@ def CtxB (B : Nat) (c : Ctx) : Prop := (∀ f, c.fg = some f → f < B) ∧ (∀
 def StB (B : Nat) (st : PState) : Prop :=
   CtxB B st.ctx ∧ (match st.mode with
     | .plain => True
-    | .fg i _ => i < B
-    | .bg i _ => i < B)
+    | .fg i _ _ => i < B
+    | .bg i _ _ => i < B)
 
 theorem ctxB_default (B : Nat) : CtxB B {} := ⟨(by intro f h; simp at h), (by intro b h; simp at h)⟩
 
@@ -207,27 +180,23 @@ theorem step_okB {B : Nat} (hB : 0 < B) (hlim : Gen.colorLimit ≤ B) {st : PSta
   unfold step
   split
   · rename_i hm; exact plainStep_okB hB hctx hm c
-  · rename_i i set hm
+  · rename_i i set n hm
     rw [hm] at hmode
     simp only at hmode
     split
-    · dsimp only
-      split
-      · exact plainStep_okB hB (st := (setFg st (optOf i set)).bump) (ctxB_setFg hctx hmode set) rfl c
-      · rename_i hj
-        exact ⟨hctx, by simp only; omega⟩
+    · rename_i hcont
+      have := continues_lt hcont
+      exact ⟨hctx, by simp only; omega⟩
     · split
       · exact ⟨ctxB_setFg hctx hmode set, by simpa using hB⟩
       · exact plainStep_okB hB (st := (setFg st (optOf i set)).bump) (ctxB_setFg hctx hmode set) rfl c
-  · rename_i i set hm
+  · rename_i i set n hm
     rw [hm] at hmode
     simp only at hmode
     split
-    · dsimp only
-      split
-      · exact plainStep_okB hB (st := (setBg st (optOf i set)).bump) (ctxB_setBg hctx hmode set) rfl c
-      · rename_i hj
-        exact ⟨hctx, by simp only; omega⟩
+    · rename_i hcont
+      have := continues_lt hcont
+      exact ⟨hctx, by simp only; omega⟩
     · exact plainStep_okB hB (st := (setBg st (optOf i set)).bump) (ctxB_setBg hctx hmode set) rfl c
 
 theorem foldl_step_okB {B : Nat} (hB : 0 < B) (hlim : Gen.colorLimit ≤ B) (s : Str) :
@@ -241,8 +210,8 @@ theorem finish_ctxB {B : Nat} {st : PState} (h : StB B st) : CtxB B (finish st).
   unfold finish
   split
   · exact hctx
-  · rename_i i set hm; rw [hm] at hmode; exact ctxB_setFg hctx hmode set
-  · rename_i i set hm; rw [hm] at hmode; exact ctxB_setBg hctx hmode set
+  · rename_i i set n hm; rw [hm] at hmode; exact ctxB_setFg hctx hmode set
+  · rename_i i set n hm; rw [hm] at hmode; exact ctxB_setBg hctx hmode set
 
 theorem stB_default (B : Nat) : StB B {} := ⟨ctxB_default B, by simp⟩
 
@@ -338,57 +307,42 @@ theorem finish_inv {st : PState} (h : InvG st) :
   unfold finish
   cases hm : st.mode with
   | plain => exact ⟨h hm, Nat.le_refl _⟩
-  | fg i set =>
+  | fg i set n =>
     have hs : (setFg st (optOf i set)).maxSize = st.maxSize := rfl
     have hb := bump_inv (setFg st (optOf i set))
     simp only
     exact ⟨hb.1, by omega⟩
-  | bg i set =>
+  | bg i set n =>
     have hs : (setBg st (optOf i set)).maxSize = st.maxSize := rfl
     have hb := bump_inv (setBg st (optOf i set))
     simp only
     exact ⟨hb.1, by omega⟩
 
 theorem step_inv {st : PState} (h : InvG st) (x : Char) : InvG (step st x) ∧ st.maxSize ≤ (step st x).maxSize := by
-  by_cases hx : contChar x = false
-  · rw [step_clean st hx]
-    obtain ⟨h1, h2⟩ := finish_inv h
-    obtain ⟨h3, h4⟩ := plainStep_inv h1 x
-    exact ⟨h3, by omega⟩
-  · cases hm : st.mode with
-    | plain =>
-      have := plainStep_inv (h hm) x
-      unfold step; rw [hm]; exact this
-    | fg i set =>
-      unfold step; rw [hm]
-      simp only
-      split
-      · split
-        · have hb := bump_inv (setFg st (optOf i set))
-          obtain ⟨h3, h4⟩ := plainStep_inv hb.1 x
-          have hs : (setFg st (optOf i set)).maxSize = st.maxSize := rfl
-          exact ⟨h3, by omega⟩
-        · exact ⟨fun hm' => by simp at hm', Nat.le_refl _⟩
-      · split
-        · exact ⟨fun hm' => by simp at hm', Nat.le_refl _⟩
-        · have hb := bump_inv (setFg st (optOf i set))
-          obtain ⟨h3, h4⟩ := plainStep_inv hb.1 x
-          have hs : (setFg st (optOf i set)).maxSize = st.maxSize := rfl
-          exact ⟨h3, by omega⟩
-    | bg i set =>
-      unfold step; rw [hm]
-      simp only
-      split
-      · split
-        · have hb := bump_inv (setBg st (optOf i set))
-          obtain ⟨h3, h4⟩ := plainStep_inv hb.1 x
-          have hs : (setBg st (optOf i set)).maxSize = st.maxSize := rfl
-          exact ⟨h3, by omega⟩
-        · exact ⟨fun hm' => by simp at hm', Nat.le_refl _⟩
-      · have hb := bump_inv (setBg st (optOf i set))
+  cases hm : st.mode with
+  | plain =>
+    have := plainStep_inv (h hm) x
+    unfold step; rw [hm]; exact this
+  | fg i set n =>
+    unfold step; rw [hm]
+    simp only
+    split
+    · exact ⟨fun hm' => by simp at hm', Nat.le_refl _⟩
+    · split
+      · exact ⟨fun hm' => by simp at hm', Nat.le_refl _⟩
+      · have hb := bump_inv (setFg st (optOf i set))
         obtain ⟨h3, h4⟩ := plainStep_inv hb.1 x
-        have hs : (setBg st (optOf i set)).maxSize = st.maxSize := rfl
+        have hs : (setFg st (optOf i set)).maxSize = st.maxSize := rfl
         exact ⟨h3, by omega⟩
+  | bg i set n =>
+    unfold step; rw [hm]
+    simp only
+    split
+    · exact ⟨fun hm' => by simp at hm', Nat.le_refl _⟩
+    · have hb := bump_inv (setBg st (optOf i set))
+      obtain ⟨h3, h4⟩ := plainStep_inv hb.1 x
+      have hs : (setBg st (optOf i set)).maxSize = st.maxSize := rfl
+      exact ⟨h3, by omega⟩
 
 theorem foldl_step_inv (s : Str) : ∀ {st : PState}, InvG st →
     InvG (s.foldl step st) ∧ st.maxSize ≤ (s.foldl step st).maxSize := by
